@@ -157,9 +157,9 @@ def emul_full_expr(e, l, my_eip, env, machine):
 
             if zf_w :
                 my_zf = machine.eval_expr(machine.pool[zf], {})
-                if 0xF3 in l.prefix and my_zf == 0:
+                if 0xF3 in l.prefix and isinstance(my_zf, ExprInt) and my_zf.arg == 0:
                     break
-                if 0xF2 in l.prefix and my_zf == 1:
+                if 0xF2 in l.prefix and isinstance(my_zf, ExprInt) and my_zf.arg == 1:
                     break
 
             tsc_inc += 1
